@@ -85,6 +85,7 @@ def detect(sid, props):
             print(p, "exit", rc, viol[:2], flush=True)
     finally:
         sh("git -C /repo checkout -- .")
+        sh("python3 harness/translate.py", cwd=VERIF)   # the regenerated Lean files follow the restored source again
         rc, out = sh("git -C /repo status --porcelain")
         res["repo_clean_after"] = not out.strip()
         # evidence/replays written during a seeded run do not describe the unchanged tree
